@@ -523,6 +523,39 @@ def _nest(rng, items, prob):
         return [('pg', None, items[:2]), ('pg', None, items[2:])]
     return items
 
+def species_wrap(rng, D, prob=0.35):
+    """secondary stream: wrap gene references into species-level groups (TaxRange = species name),
+    optionally with an in-paralog of the same species.  Such files are outside the spelled-history
+    domain (a leaf has no child clades); pyham dissolves these groups while loading."""
+    sp_of = {g: name for name, genes in D.species for g, _ in genes}
+    extra = {}
+    counter = [0]
+    def rec(es, in_pg):
+        out = []
+        for e in es:
+            if e[0] == 'ref' and e[1] in sp_of and rng.random() < prob:
+                name = sp_of[e[1]]
+                if rng.random() < 0.5:
+                    counter[0] += 1
+                    g2 = 'ip%d' % counter[0]
+                    extra.setdefault(name, []).append((g2, [('protId', 'P' + g2)]))
+                    inner = [('pg', None, [e, ('ref', g2, None)])]
+                else:
+                    inner = [e]
+                out.append(('og', None, None, [('prop', 'TaxRange', name)] + inner))
+            elif e[0] == 'og':
+                out.append(('og', e[1], e[2], rec(e[3], False)))
+            elif e[0] == 'pg':
+                out.append(('pg', e[1], rec(e[2], True)))
+            else:
+                out.append(e)
+        return out
+    D.groups = [('og', g[1], g[2], rec(g[3], False)) if g[0] == 'og' else g for g in D.groups]
+    D.species = [(name, genes + extra.get(name, [])) for name, genes in D.species]
+    D.families = []
+    D.meta['species_level'] = counter[0] + 1
+    return D
+
 def shuffle_members(rng, elems):
     out = []
     for e in elems:
